@@ -53,7 +53,7 @@ PROPS: dict = {
     "C08": {"suites": [props_tree.c08, gen.suite_gen({"subcluster"})], "rule": RULE_TREE + RULE_GEN},
     "C09": {"suites": [props_tree.c09], "rule": RULE_TREE},
     "C10": {"suites": [prims.suite_merge, gen.suite_gen({"merges", "dispatch"})], "rule": RULE_MERGE + RULE_GEN,
-            "proof_modules": ["BBProps.C10", "BBProofs.GenEq", "BBProofs.PyNum", "BBGen.Gen", "BBModel.PyNum"]},
+            "proof_modules": ["BBProps.C10", "BBProofs.GenEq", "BBProofs.GenEq2", "BBProofs.GenEq3", "BBProofs.GenEq4", "BBProofs.GenEq5", "BBProofs.PyNum", "BBGen.Gen", "BBModel.PyNum"]},
     "C11": {"suites": [prims.suite_isim, gen.suite_gen({"isim"})], "rule": RULE_PRIM + RULE_GEN},
     "C12": {"suites": [prims.suite_bits, gen.suite_gen({"centroid"})], "rule": RULE_PRIM + RULE_GEN},
     "C13": {"suites": [cxx.suite_kernels, cxx.suite_transcription, cxx.suite_end_to_end],
@@ -68,7 +68,8 @@ PROPS: dict = {
             "that already holds the outputs of an earlier run; then re-run to completion with same / changed-threshold / fewer-files "
             "parameters and compare with a fresh-directory run; stale-directory stream: earlier run with more files and cleanup off",
             "proof_modules": ["BBProps.C14", "BBProofs.Multiround", "BBProofs.Names"]},
-    "C17": {"suites": [props_tree.c17, props_tree.c17_objects, gen.suite_gen({"config", "dispatch"})], "rule": RULE_TREE + "; configuration stream: constructor with names / merge-function objects / "
+    "C17": {"proof_modules": ["BBProps.C17", "BBProofs.GenEq", "BBProofs.GenEq2", "BBProofs.GenEq3", "BBProofs.GenEq4", "BBProofs.GenEq5", "BBProofs.PyNum", "BBGen.Gen", "BBModel.PyNum"],
+            "suites": [props_tree.c17, props_tree.c17_objects, gen.suite_gen({"config", "dispatch"})], "rule": RULE_TREE + "; configuration stream: constructor with names / merge-function objects / "
             "no criterion x tolerance given or not, set_merge with every subset of its arguments, setters, reset; S-C17-OBJECTS: estimators "
             "holding merge-function objects the model does not distinguish (adaptive=False, other n_max/decay, a user subclass inheriting a "
             "built-in name), then set_merge by that name vs the constructor route (attributes and clustering of a probe set); a chosen "
